@@ -231,6 +231,7 @@ def payloads(ck, ks):
         cases += [list(m) for m in itertools.combinations_with_replacement(small, 3)]
         cases += [list(f) for f in gv.dict_families(3)]
         nrandom = 150000
+    cases += [list(c) for c in gv.INFER_ONLY_CASES]
     # wrap dict families in a list as well (element position instead of top level)
     extra = []
     for c in cases:
